@@ -10,7 +10,7 @@ Open Scope N_scope.
 Inductive case :=
 | CPhy (bs : list N) (o : outcome phy)
 | CStream (up : bool) (h : list (bool * N * Z)) (bs : list N) (o : outcome (list item))
-| CCmd (up : bool) (bs : list N) (o : outcome item)
+| CCmd (up : bool) (h : list (bool * N * Z)) (bs : list N) (o : outcome item)
 | CJoinAcc (bs : list N) (o : outcome payload)
 | CCFList (bs : list N) (o : outcome cflist).
 
@@ -18,14 +18,14 @@ Definition phyeqb := outcome_eqb phy_eqb.
 Definition ieqb := outcome_eqb (list_eqb item_eqb).
 Definition okerrb {A} (o : outcome A) : bool := match o with Ok _ | Err => true | _ => false end.
 
-Definition cmd_outcome (up : bool) (bs : list N) : outcome item :=
-  let '(it, err) := cmd_unmarshal builtin_registry up bs in if err then Err else Ok it.
+Definition cmd_outcome (up : bool) (h : list (bool * N * Z)) (bs : list N) : outcome item :=
+  let '(it, err) := cmd_unmarshal (register_all builtin_registry h) up bs in if err then Err else Ok it.
 
 Definition check (c : case) : N :=
   match c with
   | CPhy bs o => code (phyeqb (phy_unmarshal_chk bs) o) (okerrb o)
   | CStream up h bs o => code (ieqb (decode_stream (register_all builtin_registry h) up bs) o) (okerrb o)
-  | CCmd up bs o => code (outcome_eqb item_eqb (cmd_outcome up bs) o) (okerrb o)
+  | CCmd up h bs o => code (outcome_eqb item_eqb (cmd_outcome up h bs) o) (okerrb o)
   | CJoinAcc bs o => code (outcome_eqb payload_eqb (joinaccept_unmarshal bs) o) (okerrb o)
   | CCFList bs o => code (outcome_eqb cflist_eqb (cflist_unmarshal bs) o) (okerrb o)
   end.
